@@ -108,6 +108,8 @@ type Exec struct {
 	nReturns   int
 	callbackModelled bool
 	dynSort          map[string]Sort
+	nLazy            int
+	lazyHavoc        map[string]Term
 	recActive map[*Pred]bool
 	recInst   map[string]*recInstance
 	readLog   map[string]Term
@@ -154,6 +156,20 @@ func (ex *Exec) get(st State, k string, so Sort) Term {
 	t, ok := st.m[k]
 	if !ok {
 		t = ex.keyInit(k, so)
+	} else if strings.HasPrefix(t.S, "?hv") {
+		// havoc'd before its sort was known: materialise once per havoc token
+		if ex.lazyHavoc == nil {
+			ex.lazyHavoc = map[string]Term{}
+		}
+		f, seen := ex.lazyHavoc[t.S]
+		if !seen {
+			f = ex.vc.fresh("hv_"+shortKey(k), so)
+			ex.lazyHavoc[t.S] = f
+			if _, known := ex.keySort[k]; !known {
+				ex.keySort[k] = so
+			}
+		}
+		t = f
 	}
 	if ex.readLog != nil {
 		ex.readLog[k] = t
@@ -658,6 +674,39 @@ func (ex *Exec) mergeStates(edges []inEdge) State {
 		var first Term
 		same := true
 		vals := make([]Term, len(edges))
+		// lazily havoc'd keys (sort still unknown): materialise when the sort is known by now,
+		// otherwise the merge of never-read arbitrary arrays is again a never-read arbitrary array
+		hasTok, allSameTok := false, true
+		firstTok := ""
+		for _, e := range edges {
+			if v, ok := e.st.m[k]; ok && strings.HasPrefix(v.S, "?hv") {
+				hasTok = true
+				if firstTok == "" {
+					firstTok = v.S
+				} else if firstTok != v.S {
+					allSameTok = false
+				}
+			} else {
+				allSameTok = false
+			}
+		}
+		if hasTok {
+			if allSameTok {
+				out[k] = edges[0].st.m[k]
+				continue
+			}
+			so, known := ex.keySort[k]
+			if !known {
+				ex.nLazy++
+				out[k] = Term{S: fmt.Sprintf("?hv%d", ex.nLazy)}
+				continue
+			}
+			for i := range edges {
+				if v, ok := edges[i].st.m[k]; ok && strings.HasPrefix(v.S, "?hv") {
+					edges[i].st = edges[i].st.with(k, ex.get(edges[i].st, k, so))
+				}
+			}
+		}
 		for i, e := range edges {
 			v, ok := e.st.m[k]
 			if !ok {
